@@ -7,6 +7,7 @@ import Driver.Ops.Matcher
 import Driver.Ops.Merge
 import Driver.Ops.TextFile
 import Driver.Ops.Tftp
+import Driver.Ops.Yaml
 /-
 Line protocol: one JSON object per input line with a field "op"; one JSON object per
 output line: {"ok": <result>} or {"err": "<message>"}.
@@ -22,7 +23,8 @@ def allOps : List (String × Op) :=
   Driver.Matcher.ops ++
   Driver.Merge.ops ++
   Driver.TextFile.ops ++
-  Driver.Tftp.ops
+  Driver.Tftp.ops ++
+  Driver.Yaml.ops
 
 def handleLine (line : String) : String :=
   match Json.parse line with
